@@ -724,7 +724,7 @@ func genShare(tier string, seed int64, only string) []*Case {
 	add := func(api, conn, flags, pre, ev string) {
 		id++
 		cases = append(cases, newCase(id, "kind", "share", "api", api, "conn", conn, "flags", flags, "pre", pre, "ev", ev))
-		if strings.Contains(ev, "S") && conn != "replay0" && (tier == "thorough" || id%6 == 0) { // (a replay buffer of size 0 hands every value to the dropped hook: the twin's values would show up in `drops`)
+		if strings.Contains(ev, "S") && conn != "replay0" && ((tier == "thorough" && id%5 == 0) || (tier != "thorough" && id%6 == 0)) { // (a replay buffer of size 0 hands every value to the dropped hook: the twin's values would show up in `drops`)
 			// the same operator value applied to a second source with a live subscriber of its own
 			id++
 			cases = append(cases, newCase(id, "kind", "share", "api", api, "conn", conn, "flags", flags, "pre", pre, "ev", ev, "twin", "1"))
@@ -899,7 +899,7 @@ func genConn(tier string, seed int64, only string) []*Case {
 	add := func(api, conn, reset, pre, ev string) {
 		id++
 		cases = append(cases, newCase(id, "kind", "conn", "api", api, "conn", conn, "reset", reset, "pre", pre, "ev", ev))
-		if tier == "thorough" || id%5 == 0 {
+		if (tier == "thorough" && id%3 == 0) || (tier != "thorough" && id%5 == 0) {
 			for _, ctor := range []string{"new", "newctx"} {
 				id++
 				cases = append(cases, newCase(id, "kind", "conn", "api", api, "conn", conn, "reset", reset, "pre", pre, "ev", ev, "ctor", ctor))
